@@ -167,7 +167,11 @@ def run(tier, seed):
     wd = vlib.workdir(PID)
     cpath = os.path.join(wd, "cases.ndjson")
     vlib.write_cases(cases, cpath)
-    rep = vlib.run_harness("store", cpath, os.path.join(wd, "report.json"), [] if q else ["--both-layouts"])
+    if len(cases) > 20000:
+        rep = vlib.run_harness_sharded("store", cases, wd, [] if q else ["--both-layouts"], shards=10)
+        json.dump(rep, open(os.path.join(wd, "report.json"), "w"))
+    else:
+        rep = vlib.run_harness("store", cpath, os.path.join(wd, "report.json"), [] if q else ["--both-layouts"])
     v.from_report(rep)
     tstats = engine_b(v, tier, seed)
     sysstats = system_part(v, tier)
